@@ -20,6 +20,7 @@ func runC13(c *Ctx) {
 	c.Rule("C13-R3", "sort order keys on series identity and start", 2)
 	defer c13DecodeTargetReset(c)
 	defer c13CancellationMarker(c)
+	defer checkSearchFlags(c, "C13-R2", "internal/promapi.AppendSampleToRanges", "internal/promapi.MergeRanges", "internal/promapi.SeriesTimeRanges.FindGaps")
 	rq := c.MustFunc("C13-R1", "internal/promapi.Prometheus.RangeQuery")
 	if rq == nil {
 		return
